@@ -15,15 +15,34 @@ def viol(tree):
     return keys
 basecache={}
 rows=[]
-for d in sorted(glob.glob('/verif/seeded/*')):
+# usage: seed_table.py            run every seed and print the table
+#        seed_table.py K N        run only the seeds whose index % N == K (for parallel runs; prints nothing useful)
+#        seed_table.py --table    print the table from the detected_by fields already recorded
+args=sys.argv[1:]
+tag=str(os.getpid())
+if args and args[0]=='--table':
+    for d in sorted(glob.glob('/verif/seeded/*')):
+        if not os.path.isdir(d): continue
+        meta=json.load(open(d+'/meta.json'))
+        new=meta.get('detected_by',[])
+        rules=sorted({k.split('|')[0] for k in new})
+        rows.append((os.path.basename(d),meta['property'],(meta.get('breaks') or '')[:110].replace('\n',' ').replace('|','/'),', '.join(rules) if rules else '**not detected**'))
+    print('| seed | property | change (abridged) | detected by |')
+    print('|---|---|---|---|')
+    for r in rows: print('| %s | %s | %s | %s |'%r)
+    sys.exit(0)
+alld=[d for d in sorted(glob.glob('/verif/seeded/*')) if os.path.isdir(d)]
+if len(args)==2:
+    K,N=int(args[0]),int(args[1]); alld=[d for i,d in enumerate(alld) if i%N==K]
+for d in alld:
     meta=json.load(open(d+'/meta.json'))
     base=meta.get('written_against_commit') or '2e99453'
     if base not in basecache:
-        w='/tmp/scratch/st_base_'+base
+        w='/tmp/scratch/st_base_'+tag+'_'+base
         subprocess.run(['git','-C','/repo','worktree','add','-q','--detach',w,base],check=True)
         basecache[base]=viol(w)
         subprocess.run(['git','-C','/repo','worktree','remove','--force',w],check=True)
-    w='/tmp/scratch/st_mut'
+    w='/tmp/scratch/st_mut_'+tag
     subprocess.run(['git','-C','/repo','worktree','add','-q','--detach',w,base],check=True)
     r=subprocess.run(['git','apply',d+'/patch.diff'],cwd=w)
     new=sorted(viol(w)-basecache[base]) if r.returncode==0 else ['PATCH DOES NOT APPLY']
